@@ -5,6 +5,7 @@ package main
 // (E2, sibling cross-check).
 
 import (
+	"fmt"
 	"go/token"
 	"go/types"
 	"sort"
@@ -80,14 +81,19 @@ func propC18(w *World, r *Report, tier string) {
 	}
 	checkParserSeqRules(w, r, "uePolicyContainer", nil)
 	r.Expect("seq.fresh-elem", 5)
-	checkSerialiserLoops(w, r, "uePolicyContainer", func(fn *ssa.Function) bool { return fn.Name() == "MarshalBinary" || strings.HasPrefix(fn.Name(), "Encode") })
+	checkSerialiserLoops(w, r, "uePolicyContainer", func(fn *ssa.Function) bool {
+		return fn.Name() == "MarshalBinary" || strings.HasPrefix(fn.Name(), "Encode")
+	})
 	r.Expect("seq.all-items", 5)
+	checkUePolShapes(w, r)
 	checkPointerFieldWrites(w, r, "uePolicyContainer")
 	checkFreshDecodeTargets(w, r, "uePolicyContainer", "UePolDeliverySer.UePolDeliverySerDecode")
 	r.Expect("dec.fresh-target", 3)
 	// PLMN octets of the section-management sublists: same TS 24.008 digit order as every other PLMN encoder
 	checkPlmnEncoders(w, r, map[string]bool{"uePolicyContainer.SubList": true, "uePolicyContainer.SubResult": true})
-	lenFromContent(w, r, "uePolicyContainer", func(name string) bool { return strings.Contains(name, "MarshalBinary") || strings.HasPrefix(name, "Encode") }, []string{
+	lenFromContent(w, r, "uePolicyContainer", func(name string) bool {
+		return strings.Contains(name, "MarshalBinary") || strings.HasPrefix(name, "Encode")
+	}, []string{
 		"UePolicyContainer_Instruction.go", "UePolicyContainer_UEPolicyParts.go", "UePolicyContainer_UEPolicySectionManagementSubList.go",
 		"UePolicyContainer_UEPolicySectionManagementSubResult.go", "UePolicyContainer_UEPolicySectionManagementList.go", "UePolicyContainer_UEPolicySectionManagementResult.go",
 		"UePolicyContainer_Result.go", "UePolicyContainer_ManageUEPolicyCommand.go", "UePolicyContainer_ManageUEPolicyComplete.go", "UePolicyContainer_ManageUEPolicyReject.go"})
@@ -232,4 +238,184 @@ func seqDual(w *World, r *Report, rel, ser, par string) {
 			r.Sample(map[string]any{"rule": "seq.dual", "serialiser": FuncName(fs), "parser": FuncName(fp), "fields": a})
 		}
 	}
+}
+
+// checkUePolShapes (walk.uepol): the section-management list parser interpreted by E2 (buffer
+// reader models) on inputs with concrete length / PLMN / type octets and symbolic UPSCs and part
+// contents returns exactly the nested structure laid out in the octets: sublists, their
+// instructions and their policy parts, each with the lengths, codes and contents at the offsets
+// the layout (TS 24.501 Annex D.6.2) assigns.
+func checkUePolShapes(w *World, r *Report) {
+	f := w.LookupFunc("uePolicyContainer", "UEPolicySectionManagementListContent.UnmarshalBinary")
+	if f == nil {
+		r.Fail("anchor", "uePolicyContainer.UEPolicySectionManagementListContent.UnmarshalBinary", "missing", token.NoPos, "parser not found", nil)
+		return
+	}
+	fname := FuncName(f)
+	// a shape: sublists -> instructions -> part content lengths
+	shapes := [][][][]int{
+		{{{2}}},
+		{{{1}, {3, 0}}},
+		{{{2}}, {{1}}},
+		{{{0}}, {{1}, {1}}, {{2, 2}}},
+		{{}, {{4}}},
+		{{{1, 1, 1}}, {}},
+	}
+	u16 := func(it *Interp, v int) []BV { return []BV{it.constBV(uint64(v>>8), 8), it.constBV(uint64(v&0xff), 8)} }
+	for _, shape := range shapes {
+		r.Site("walk.uepol")
+		it := NewInterp(w)
+		it.Fuel = 300000
+		readerModels(it)
+		st := it.NewState()
+		seedIOErrors(it, st)
+		bo := it.NewObj("in", true)
+		st.mem[bo] = map[string]Value{}
+		off := 0
+		put := func(bs ...BV) {
+			for _, b := range bs {
+				st.mem[bo][fmt.Sprintf("[%d]", off)] = b
+				off++
+			}
+		}
+		sym := func() BV { // leave the cell symbolic (lazy source in[off])
+			b := it.SrcBV(fmt.Sprintf("in[%d]", off), 8)
+			off++
+			return b
+		}
+		type partW struct {
+			length int
+			cont   []BV
+		}
+		type instrW struct {
+			length int
+			upsc   BV
+			parts  []partW
+		}
+		type subW struct {
+			length int
+			instrs []instrW
+		}
+		var want []subW
+		for _, sub := range shape {
+			slen := 3
+			for _, ins := range sub {
+				ilen := 2
+				for _, pl := range ins {
+					ilen += 2 + 1 + pl
+				}
+				slen += 2 + ilen
+			}
+			sw := subW{length: slen}
+			put(u16(it, slen)...)
+			put(it.constBV(0x02, 8), it.constBV(0xf8, 8), it.constBV(0x39, 8))
+			for _, ins := range sub {
+				ilen := 2
+				for _, pl := range ins {
+					ilen += 2 + 1 + pl
+				}
+				iw := instrW{length: ilen}
+				put(u16(it, ilen)...)
+				hi, lo := sym(), sym()
+				iw.upsc = bvCat(hi, lo)
+				for _, pl := range ins {
+					pw := partW{length: 1 + pl}
+					put(u16(it, 1+pl)...)
+					put(it.constBV(0x01, 8))
+					for k := 0; k < pl; k++ {
+						pw.cont = append(pw.cont, sym())
+					}
+					iw.parts = append(iw.parts, pw)
+				}
+				sw.instrs = append(sw.instrs, iw)
+			}
+			want = append(want, sw)
+		}
+		ro, recv := it.SymbolicObj("list")
+		st.mem[ro] = map[string]Value{"": SliceV{Nil: true, Len: 0}}
+		res := it.Call(w.SSAFunc(f), []Value{recv, SliceV{Obj: bo, Len: off}}, st, 0)
+		what := fmt.Sprintf("sublists/instructions/part content lengths %v", shape)
+		good, why := true, ""
+		if len(it.Unsup) > 0 {
+			good, why = false, fmt.Sprintf("undecided: %v", it.Unsup)
+		}
+		if _, isNil := res.(NilV); good && !isNil {
+			good, why = false, fmt.Sprintf("a well-formed list is rejected (%T)", res)
+		}
+		sliceAt := func(o *MemObj, path string) (SliceV, int) {
+			s, _ := st.mem[o][path].(SliceV)
+			n := s.Len
+			if s.Nil || s.Obj == nil {
+				n = 0
+			}
+			return s, n
+		}
+		word := func(o *MemObj, path string, wd int) BV {
+			v, _ := st.mem[o][path].(BV)
+			if v.W != wd {
+				return it.topBV(wd)
+			}
+			return v
+		}
+		if good {
+			subs, n := sliceAt(ro, "")
+			if n != len(want) {
+				good, why = false, fmt.Sprintf("%d sublists returned, the octets hold %d", n, len(want))
+			}
+			for si := 0; good && si < len(want); si++ {
+				sp := fmt.Sprintf("%s[%d]", subs.Path, subs.Lo+si)
+				if ok, m := sameBV(it, word(subs.Obj, sp+".Len", 16), it.constBV(uint64(want[si].length), 16)); !ok {
+					good, why = false, fmt.Sprintf("sublist %d length: %s", si, m)
+					break
+				}
+				ins, ni := sliceAt(subs.Obj, sp+".UEPolicySectionManagementSubListContents")
+				if ni != len(want[si].instrs) {
+					good, why = false, fmt.Sprintf("sublist %d: %d instructions returned, the octets hold %d", si, ni, len(want[si].instrs))
+					break
+				}
+				for ii := 0; good && ii < ni; ii++ {
+					ip := fmt.Sprintf("%s[%d]", ins.Path, ins.Lo+ii)
+					wi := want[si].instrs[ii]
+					if ok, m := sameBV(it, word(ins.Obj, ip+".Len", 16), it.constBV(uint64(wi.length), 16)); !ok {
+						good, why = false, fmt.Sprintf("sublist %d instruction %d length: %s", si, ii, m)
+						break
+					}
+					if ok, m := sameBV(it, word(ins.Obj, ip+".Upsc", 16), wi.upsc); !ok {
+						good, why = false, fmt.Sprintf("sublist %d instruction %d UPSC: %s", si, ii, m)
+						break
+					}
+					parts, np := sliceAt(ins.Obj, ip+".UEPolicySectionContents")
+					if np != len(wi.parts) {
+						good, why = false, fmt.Sprintf("sublist %d instruction %d: %d policy parts returned, the octets hold %d", si, ii, np, len(wi.parts))
+						break
+					}
+					for pi := 0; good && pi < np; pi++ {
+						pp := fmt.Sprintf("%s[%d]", parts.Path, parts.Lo+pi)
+						if ok, m := sameBV(it, word(parts.Obj, pp+".Len", 16), it.constBV(uint64(wi.parts[pi].length), 16)); !ok {
+							good, why = false, fmt.Sprintf("policy part %d/%d/%d length: %s", si, ii, pi, m)
+							break
+						}
+						cs, _ := st.mem[parts.Obj][pp+".UEPolicyPartContents"].(SliceV)
+						bs, okb := sliceBytes(it, st, cs)
+						if !okb || len(bs) != len(wi.parts[pi].cont) {
+							good, why = false, fmt.Sprintf("policy part %d/%d/%d contents are not %d octets", si, ii, pi, len(wi.parts[pi].cont))
+							break
+						}
+						for k := range bs {
+							if ok, m := sameBV(it, bs[k], wi.parts[pi].cont[k]); !ok {
+								good, why = false, fmt.Sprintf("policy part %d/%d/%d content octet %d: %s", si, ii, pi, k, m)
+								break
+							}
+						}
+					}
+				}
+			}
+		}
+		if good {
+			r.OK("walk.uepol")
+		} else {
+			r.Fail("walk.uepol", fname, what, f.Pos(), "the parser does not return the structure laid out in the input: "+why, nil)
+		}
+	}
+	r.Expect("walk.uepol", 6)
 }
